@@ -7,6 +7,7 @@ use super::*;
 use alloc::{vec, vec::Vec}; // for generated concrete-playback tests (no_std crate)
 use core::cmp::Ordering::{self, *};
 use core::hash::{Hash, Hasher};
+use alloc::string::ToString;
 
 /// 2^53: beyond this magnitude the property exempts int/float comparisons.
 const P53: isize = 1 << 53;
@@ -298,4 +299,38 @@ fn c08_int_bigint2_cmp_exact() {
     kani::cover!(v > isize::MAX as i128);
     kani::cover!(v < isize::MIN as i128);
     core::mem::forget((x, y));
+}
+
+fn dec(s: &str) -> Num {
+    Num::Dec(Rc::new(s.to_string()))
+}
+
+//@ tier: quick
+//@ funcs: <Num as PartialEq>::eq (Dec arms), <Num as Ord>::cmp (Dec arms), <Num as Hash>::hash (Dec arm), Num::from_dec_str
+//@ bounds: decimal literals "1.0", "1.00", "1e0", "2.50", "-0.0" (concrete spellings: parsing a symbolic string does not decide) against ALL non-NaN f64 and against each other
+//@ asserts: an unparsed decimal literal compares, equals and hashes exactly like the float it denotes: Dec(d) == Float(f) <=> value(d) == f, cmp is the IEEE order of the values, equal => same hash stream; different spellings of one value (1.0 / 1.00 / 1e0) are equal, Equal under cmp, and hash alike
+#[kani::proof]
+#[kani::unwind(42)]
+fn c08_dec_literals_behave_like_their_value() {
+    let f = any_float_no_nan();
+    let x = Num::Float(f);
+    let (a, b, c, d, z) = (dec("1.0"), dec("1.00"), dec("1e0"), dec("2.50"), dec("-0.0"));
+    assert!((a == x) == (f == 1.0) && (x == a) == (f == 1.0));
+    assert!(a.cmp(&x) == m_float(1.0, f) && x.cmp(&a) == m_float(f, 1.0));
+    assert!((d == x) == (f == 2.5));
+    assert!((z == x) == (f == 0.0));
+    if a == x {
+        assert!(stream(&a).same(&stream(&x)));
+    }
+    if z == x {
+        assert!(stream(&z).same(&stream(&x)));
+    }
+    // spellings of the same value
+    assert!(a == b && b == a && a == c && c == b);
+    assert!(a.cmp(&b) == Equal && b.cmp(&c) == Equal);
+    assert!(stream(&a).same(&stream(&b)) && stream(&a).same(&stream(&c)));
+    assert!(a != d && a.cmp(&d) == Less && d.cmp(&c) == Greater);
+    kani::cover!(f == 1.0);
+    kani::cover!(f == 0.0 && f.is_sign_positive());
+    core::mem::forget((a, b, c, d, z, x));
 }
